@@ -22,6 +22,14 @@ SEARCHES = {
     "tx_index": ("teos/src/tx_index.rs", "replay_tests/search_tx_index.rs", "teos", "verif_replay_search",
                  "all connect/disconnect sequences up to length 7 over windows of 2 and 3 blocks, blocks with 0..2 transactions"),
 }
+# bounded stand-ins for code no contract can reach (SQL): (source file pattern, module, file it is appended to, package,
+# test filter, properties it speaks for, the stated bound)
+BOUNDED = {
+    "plugin_dbm": ("watchtower-plugin/src/dbm.rs", "replay_tests/bounded_plugin_dbm.rs", "watchtower-plugin/src/dbm.rs", "watchtower-plugin", "verif_bounded_dbm",
+                   ["C05", "C18"],
+                   "real client DBM (SQLite in memory) vs the stub contracts: towers {t1,t2}, locators {l1,l2}, expiries {e1<e2}; every sequence of <= 4 "
+                   "operations starting with a registration, and every sequence of 3 operations after both towers are registered (87 880 sequences)"),
+}
 _done = {}
 
 
@@ -64,5 +72,37 @@ def _run(target_file, module, package, flt, what):
         if "REPLAY-NONE" in out:
             return {"found": None, "outcome": "no failing input in the enumerated space", "tail": out[-600:], "cmd": cmd}
         return {"found": None, "outcome": "search did not run to completion (build error?)", "tail": out[-1500:], "cmd": cmd}
+    finally:
+        shutil.rmtree(scratch, ignore_errors=True)
+
+
+def bounded(name):
+    """run a bounded stand-in; returns dict(kind = 'state' | 'result' | None, input, outcome, bound, cmd, sequences)"""
+    if ("bounded", name) in _done:
+        return _done[("bounded", name)]
+    src, module, target_file, package, flt, props, bound = BOUNDED[name]
+    scratch = tempfile.mkdtemp(prefix="verif_bounded_")
+    try:
+        subprocess.run(["rsync", "-a", "--exclude", "target", "--exclude", ".git", REPO.rstrip("/") + "/", scratch + "/"], check=True)
+        with open(os.path.join(scratch, target_file), "a", encoding="utf-8") as f:
+            f.write("\n" + open(os.path.join(VERIF, module), encoding="utf-8").read())
+        tdir = os.path.join(VERIF, ".cache", "replay_target")
+        os.makedirs(tdir, exist_ok=True)
+        cmd = "cargo test --offline -p %s --lib %s -- --nocapture" % (package, flt)
+        env = dict(os.environ, CARGO_TARGET_DIR=tdir, CARGO_NET_OFFLINE="true", RUST_BACKTRACE="0")
+        try:
+            r = subprocess.run(cmd, shell=True, cwd=scratch, env=env, capture_output=True, text=True, timeout=3000)
+            out = r.stdout + r.stderr
+        except subprocess.TimeoutExpired:
+            out = "TIMEOUT"
+        res = {"kind": None, "input": None, "bound": bound, "cmd": cmd + "   (module %s appended to %s)" % (module, target_file), "sequences": 0, "outcome": "did not run to completion: " + out[-400:]}
+        m = re.search(r"BOUNDED-FAIL (STATE|RESULT) (.*)", out)
+        n = re.search(r"BOUNDED-NONE (\d+)", out)
+        if m:
+            res.update(kind=m.group(1).lower(), input=m.group(2).strip()[:700], outcome="the real code deviates from the stub contract (%s)" % m.group(1).lower())
+        elif n:
+            res.update(sequences=int(n.group(1)), outcome="no deviation in the enumerated space")
+        _done[("bounded", name)] = res
+        return res
     finally:
         shutil.rmtree(scratch, ignore_errors=True)
